@@ -453,8 +453,9 @@ func (s *Stream) skipValue(depth int64) error {
 				if floatTable[c] {
 					continue
 				} else if c == nul {
+					s.cursor = cursor
 					if s.read() {
-						_, cursor, p = s.stat()
+						_, cursor, p = s.statForRetry()
 						continue
 					}
 				}
